@@ -37,6 +37,10 @@ def all_shipped():
 
 
 def classify(e, stage, mb=None):
+  if stage == 'calibrate' and isinstance(e, RuntimeError) and 'tensor.data.raw != nullptr' in str(e):
+    # Calibrator.calibrate ends every sample with interpreter.reset_all_variables(),
+    # which fails while a subgraph holding a variable tensor has not been allocated
+    return 'calibrate:variable-tensor-in-unallocated-subgraph'
   k = cg.classify_raise(e, og.read(mb) if mb is not None else None)
   return f'{stage}:{k}'
 
@@ -88,7 +92,7 @@ def main():
       c = json.load(open(os.path.join(cdir, f)))
       if c.get('model_hex') and c.get('recipe') in ship:
         cases.append((bytes.fromhex(c['model_hex']), c['recipe']))
-  n_models = 450 if tier == 'thorough' else 60
+  n_models = 1500 if tier == 'thorough' else 120
   if '--replay' not in sys.argv:
     for k in range(n_models):
       mb, info = gg.gen_model(rng, max_ops=rng.choice([3, 5, 8, 10]))
